@@ -39,15 +39,30 @@ func init() {
 	hx.Register("C01", Run)
 }
 
+// emitCases: Coq cases are written only when Gen/Recover.v could be produced completely.
+var emitCases = true
+
 var tornOffsets = []int{0, 1, 31, 32, 33, 65, 1 << 20}
 
 func Run(c *hx.Ctx) {
 	c.CoqModule("Corr.C01")
+	// The crash scenarios and the oracle do not depend on the translation: when submitBlock or
+	// recoverStore can no longer be translated that is reported, the scenarios still run (with the
+	// step order of submitBlock alone, or the order this driver was written against), and only the
+	// Coq cases, which need Gen/Recover.v, are left out.
 	proto, err := ExtractProtocol(c.Repo)
+	emitCases = err == nil
 	if err != nil {
 		c.Note("protocol extraction: " + err.Error())
-		c.Fail("translator:recover", "the commit protocol of submitBlock/recoverStore could not be read from the source", ledgerStoreFile, err.Error(), nil)
-		return
+		c.Fail("translator:recover", "the commit protocol of submitBlock/recoverStore could not be read from the source (Gen/Recover.v incomplete: proofs and Coq cases not checked on this run)", ledgerStoreFile, err.Error(), nil)
+		proto = &Protocol{}
+		steps, serr := ExtractSubmitSteps(c.Repo)
+		if serr != nil || len(steps) == 0 {
+			c.Note(fmt.Sprintf("submitBlock steps unreadable (%v): using the default order", serr))
+			steps = DefaultSubmitSteps
+		}
+		proto.Submit = steps
+		proto.InitGo, proto.CondGo, proto.PostGo, proto.ArgGo = "?", "?", "?", "?"
 	}
 	var stepNames []string
 	for _, s := range proto.Submit {
@@ -625,5 +640,7 @@ func (cw *coqChain) emit(c *hx.Ctx, in scenario, h int, p crashPoint, crashed *d
 	term := fmt.Sprintf("CScen %s_hct %s %d %s %s_d0 %s_xtab %s %s %s_b%d %s %s %s %s %s %s",
 		n, cq(empty), ledgerkit.StateHashHeight, cq(probeRoot), n, n, hx.CoqList(prefix), lobs(bc.obs[h-1]),
 		n, h, hx.CoqNat(p.C), hx.CoqNat(j), cw.dobs(crashed), ro, hx.CoqList(aft), fin)
-	c.Case(term, in)
+	if emitCases {
+		c.Case(term, in)
+	}
 }
